@@ -241,6 +241,19 @@ package slice
 // spans of lhs and rhs at those offsets, an Emit covers equal elements, no edit is empty, and the offsets after the last
 // edit are the lengths of the inputs. Index safety of the two scan loops and of the run extension follows from the
 // witnesses being strictly ascending (the k-th remaining witness is at least k positions ahead), not from optimality.
+// Optimality of LCSFunc. The ghost table tab[j][x] is the n of the node stored for row j (a prefix of bs of length j)
+// and column x (a prefix of as of length x). tabUpTo states, for every cell filled so far (rows below J, and row J
+// left of I), that the cell is not negative, column 0 is 0, a cell is not below its left and upper neighbours and at
+// most one above them, and a cell whose two elements match is above its upper-left neighbour. These are exactly
+// the hypotheses of the lemma function govcLCSBound (at the end of this file), which derives by induction that no
+// common subsequence is longer than tab[len(bs)][len(as)], the length LCSFunc returns.
+//@ pred cellDone(j int, x int, J int, I int) := j < J || (j == J && x < I)
+//@ pred tabUpTo(tab imap[imap[int]], X Slice, Y Slice, eq func(T, T) bool, J int, I int) := (forall j int, x int :: {tab[j][x]} 0 <= j && j <= len(Y) && 0 <= x && x <= len(X) && cellDone(j, x, J, I) ==> tab[j][x] >= 0 && (x == 0 ==> tab[j][x] == 0))
+//@+     && (forall j int, x int, y int :: {tab[j][x], tab[j][y]} 0 <= j && j <= len(Y) && 0 <= x && y == x + 1 && y <= len(X) && cellDone(j, y, J, I) ==> tab[j][x] <= tab[j][y] && tab[j][y] <= tab[j][x] + 1)
+//@+     && (forall j int, k int, x int :: {tab[j][x], tab[k][x]} 0 <= j && k == j + 1 && k <= len(Y) && 0 <= x && x <= len(X) && cellDone(k, x, J, I) ==> tab[j][x] <= tab[k][x] && tab[k][x] <= tab[j][x] + 1)
+//@+     && (forall j int, k int, x int, y int :: {tab[j][x], tab[k][y]} 0 <= j && k == j + 1 && k <= len(Y) && 0 <= x && y == x + 1 && y <= len(X) && cellDone(k, y, J, I) && eqv(eq, X[x], Y[j]) ==> tab[k][y] >= tab[j][x] + 1)
+//@ pred tabOK(tab imap[imap[int]], X Slice, Y Slice, eq func(T, T) bool) := tabUpTo(tab, X, Y, eq, len(Y) + 1, 0)
+//@
 //@ byref seq
 //@ ghost field seq.gj int
 //@
@@ -251,6 +264,20 @@ package slice
 //@   ensures [C11,C12,C13] ascending: forall a int, b int :: {wa[a], wa[b]} {wb[a], wb[b]} 0 <= a && a <= b && b < len(result) ==> wa[b] - wa[a] >= b - a && wb[b] - wb[a] >= b - a
 //@   ensures [C11,C12,C13] inputs: unchanged(elems(as)) && unchanged(elems(bs)) && (len(result) > 0 ==> fresh(result))
 //@   ghostret nodes set[ref], u imap[int], v imap[int]
+//@   ghostret tab imap[imap[int]], zrow imap[int]
+//@   ensures [C12] optimal: len(as) > 0 && len(bs) > 0 ==> (len(bs) >= len(as) ==> tabOK(tab, as, bs, eq) && len(result) == tab[len(bs)][len(as)]) && (len(bs) < len(as) ==> tabOK(tab, bs, as, eq) && len(result) == tab[len(as)][len(bs)])
+//@   at after "var zero seq": ghost zrow = lambda k int :: 0
+//@   at after "var zero seq": ghost tab[0] = zrow
+//@   at loop 2 head: ghost tab[j] = upd(tab[j], 0, 0)
+//@   at after "c[i] = &seq{i - 1, p[i-1].n + 1, p[i-1]}": ghost tab[j] = upd(tab[j], i, c[i].n)
+//@   at after "c[i] = c[i-1]": ghost tab[j] = upd(tab[j], i, c[i].n)
+//@   at after "c[i] = p[i]": ghost tab[j] = upd(tab[j], i, c[i].n)
+//@   loop 1: invariant [C12] row0: forall x int :: {tab[0][x]} tab[0][x] == 0
+//@   loop 2: invariant [C12] table: tabUpTo(tab, as, bs, eq, j, 0)
+//@   loop 2: invariant [C12] lastrow: forall x int :: {c[x]} 0 <= x && x <= len(as) ==> c[x].n == tab[j - 1][x]
+//@   loop 3: invariant [C12] table: tabUpTo(tab, as, bs, eq, j, i)
+//@   loop 3: invariant [C12] prevrow: forall x int :: {p[x]} 0 <= x && x <= len(as) ==> p[x].n == tab[j - 1][x]
+//@   loop 3: invariant [C12] currow: forall x int :: {c[x]} 0 <= x && x < i ==> c[x].n == tab[j][x]
 //@   at after "var zero seq": ghost nodes = setadd(emptyset(nodes), zero)
 //@   at after "c[i] = &seq{i - 1, p[i-1].n + 1, p[i-1]}": ghost c[i].gj = j - 1
 //@   at after "c[i] = &seq{i - 1, p[i-1].n + 1, p[i-1]}": ghost nodes = setadd(nodes, c[i])
